@@ -16,9 +16,9 @@ func init() {
 		Rule: "cases: six world families by index (NetworkPolicy worlds; worlds with canonicalisation-stress port lists and CIDR layouts; ANP/BANP precedence worlds; worlds with Services/Ingresses/Routes; exposure analysis on; focus-workload on), each analysed through ConnlistFromDirPath and, for a third of them, ConnlistFromResourceInfos; " +
 			"an invariant monitor walks the returned []Peer2PeerConnection and []Peer: unique (src,dst), no self/ip-ip/empty entries, IP peers single contiguous pairwise-disjoint ranges covering 0.0.0.0-255.255.255.255, All flag <=> three full ranges, per-protocol ranges sorted/disjoint/non-adjacent within 1..65535; " +
 			"non-trivial = the result has an entry with a partial (non-All) connection or at least two IP peers; distinct = world content hash + family",
-		Assumptions: []string{"inputs are API-admissible", "IP peer ranges are read from Peer.IP() and parsed by our own dotted-quad parser"},
-		NumCases:    func(tier string, _ int64) int { return tierN(tier, 1800, 80000) },
-		Run:         runC05,
+		Assumptions:       []string{"inputs are API-admissible", "IP peer ranges are read from Peer.IP() and parsed by our own dotted-quad parser"},
+		NumCases:          func(tier string, _ int64) int { return tierN(tier, 1800, 80000) },
+		Run:               runC05,
 		MinNonTrivial:     400,
 		MinEffectiveShare: 0.5,
 		RequiredEvents: map[string]int64{"entries_checked": 5000, "ip_peers_checked": 1000, "partial_connections": 1000, "all_connections": 500,
